@@ -424,6 +424,9 @@ class FnAnalysis:
                 return ("lit", "pending", None, False)
             inner = op_place(rv["ops"][0]) if rv["ops"] else None
             if inner is not None and isinstance(inner, int):
+                d0 = self.org.single_def(inner)
+                if d0 is not None and d0[0] == "assign" and d0[2]["k"] == "agg" and d0[2]["agg"] == "tuple" and not d0[2]["ops"]:
+                    return ("lit", "success", None, False)   # Poll::Ready(())
                 it = self.tag_of_local(inner)
                 if it and it[0] == "lit":
                     return it
